@@ -318,3 +318,9 @@ def r11_11(ctx):
     from .c20 import r20_6, r20_7
     r20_6(ctx)
     r20_7(ctx)
+
+
+@rule("R11.12", min_instances=1, desc="the fixed-number twin keeps the path constraints of the free-time NLP: a chained constraint on horizon quantities whose instance folds to a constant is judged link by link (shared with C20: R20.9)")
+def r11_12(ctx):
+    from .c20 import r20_9
+    r20_9(ctx)
